@@ -108,3 +108,17 @@ Theorem C02_given_weights_model_feasible_iff :
   ((exists a, sat a (encode_kfd_given I ws k_orig)) <-> (exists P, given_choice I ws k_orig P)).
 Proof. exact kfdw_feasible_iff. Qed.
 Print Assumptions C02_given_weights_model_feasible_iff.
+
+(* the E1 comparison itself is verified: when the extracted checker accepts, the LP read back from the solver and the model's LP
+   have the same satisfying assignments, the same objective function and direction -- hence the same optimal solutions.  Every
+   theorem above about `sat a (encode_kfd I)` therefore holds for the LP the implementation built on that instance. *)
+From FP Require Import LinEquiv.
+Theorem C02_lp_comparison_is_verified : forall (m1 m2 : milp), milp_equiv_b m1 m2 = true ->
+  (forall a, sat a m1 <-> sat a m2) /\ (forall a, (objective a m1 == objective a m2)%Q) /\ maximize m1 = maximize m2.
+Proof. exact milp_equiv_sound. Qed.
+Print Assumptions C02_lp_comparison_is_verified.
+
+Theorem C02_equivalent_lps_have_the_same_optima : forall (m1 m2 : milp), milp_equiv_b m1 m2 = true ->
+  forall a, (sat a m1 /\ forall b, sat b m1 -> obj_le m1 a b) <-> (sat a m2 /\ forall b, sat b m2 -> obj_le m2 a b).
+Proof. exact milp_equiv_optimal. Qed.
+Print Assumptions C02_equivalent_lps_have_the_same_optima.
